@@ -176,6 +176,11 @@ impl Vm {
         ReceiveResult::Ok(value) => {
           // Value was present put onto stack
           self.fiber.push(value);
+
+          // taking a value may allow a parked sender to continue
+          if let Some(waiter) = channel.runnable_waiter() {
+            self.queue_blocked_fiber(waiter);
+          }
           ExecutionSignal::Ok
         }
         ReceiveResult::NoReceiveAccess => {
@@ -224,7 +229,13 @@ impl Vm {
       fiber.add_used_channel(self.gc.borrow_mut(), self, channel);
 
       match channel.send(self.fiber.waiter(), value) {
-        SendResult::Ok => ExecutionSignal::Ok,
+        SendResult::Ok => {
+          // a buffered value may allow a parked receiver to continue
+          if let Some(waiter) = channel.runnable_waiter() {
+            self.queue_blocked_fiber(waiter);
+          }
+          ExecutionSignal::Ok
+        },
         SendResult::NoSendAccess => self.runtime_error_from_str(
           self.builtin.errors.runtime,
           "Attempted to send into a receive only channel.",
